@@ -41,8 +41,10 @@
      sequential runs of the library's write / delete programs), and the reader's result is the result of the same read
      on the tree obtained by running the first n of them one after the other.  Hypotheses: arguments the record codec
      accepts (kv_ok, decidable), no digest collision among the data involved (NoColl) nor with content already stored
-     (coll0).  C07_serializable_mixed: the same with readers of two kinds in one pool, read by key and metadata (index
-     lookup); all answers and the final state are those of one sequential order.
+     (coll0).  C07_serializable_mixed: the same with observers of four kinds in one pool — read by key, metadata (index
+     lookup), read by the address of some data, existence test; all answers and the final state are those of one
+     sequential order (a content observer that sees the bytes is placed at the end of the order — content is visible
+     before its writer's record is — one that does not see them at its ghost prefix).
    Serialisability of whole operations mixing readers / removers / listers, bounded (the bound is part of each statement): for the nine concrete pairs below — drawn from the
    property's operation set on cold and warm caches, with a toy hash, concrete keys and contents (two writers of one key /
    of one content are taken after their private temp-file phase, i.e. as two commits) — EVERY interleaving of
@@ -151,7 +153,9 @@ Theorem C07_serializable_with_readers (HL : HashLen hash) ws f0 m0 W0 ks pl' rl'
        exists n, (n <= List.length perm)%nat /\ a = fst (run (read hash (nth j ks [])) (serial hash f0 (firstn n perm)))).
 Proof. intros H1 H2 H3 H4. exact (serializable_with_readers hash HL ws f0 m0 W0 H1 H2 H3 H4 ks pl' rl' f' rs). Qed.
 
-(* the same with two kinds of readers in one pool: read by key (two steps) and metadata / index lookup (one step) *)
+(* the same with observers of four kinds in one pool: read by key (two steps), metadata / index lookup, read by the
+   address of some data, existence test (one step each).  For the two content observers the initial content area must hold
+   no symbolic link (true of every cache ordinary writes produce; link_to entries are excluded) *)
 Theorem C07_serializable_mixed (HL : HashLen hash) ws f0 m0 W0 ops pl' rl' f' rs :
   HInv hash f0 m0 W0 -> coll0 hash ws f0 ->
   forallb (kv_ok hash) (map kv_of ws) = true -> NoColl hash (W0 ++ written (map kv_of ws)) ->
@@ -159,16 +163,31 @@ Theorem C07_serializable_mixed (HL : HashLen hash) ws f0 m0 W0 ops pl' rl' f' rs
   exists perm,
     Permutation perm ws /\
     rs = map (fun x => Ok (x_res hash x)) ws /\
-    (forall op, ranswer hash op f' = ranswer hash op (serial hash f0 perm)) /\
-    (forall j a, (j < List.length ops)%nat -> nth j rl' (Ret (OMeta Stuck)) = Ret a ->
+    (forall op, (content_op op -> NoSymC f0) -> ranswer hash op f' = ranswer hash op (serial hash f0 perm)) /\
+    (forall j a, (j < List.length ops)%nat -> (content_op (nth j ops (RMeta [])) -> NoSymC f0) ->
+       nth j rl' (Ret (OMeta Stuck)) = Ret a ->
        exists n, (n <= List.length perm)%nat /\ a = ranswer hash (nth j ops (RMeta [])) (serial hash f0 (firstn n perm))).
 Proof. intros H1 H2 H3 H4. exact (serializable_mixed hash HL ws f0 m0 W0 H1 H2 H3 H4 ops pl' rl' f' rs). Qed.
 
-(* the reader programs are the library's read / find programs (their results tagged), the atomic answers their runs *)
-Theorem C07_rprog_is_read_or_find op :
-  rprog hash op = match op with RRead k => bind (read hash k) (fun r => Ret (OBytes r)) | RMeta k => bind (find hash k) (fun r => Ret (OMeta r)) end /\
-  forall f, ranswer hash op f = match op with RRead k => OBytes (fst (run (read hash k) f)) | RMeta k => OMeta (fst (run (find hash k) f)) end.
+(* the observer programs are the library's programs (their results tagged), the atomic answers their runs *)
+Theorem C07_rprog_is_library op :
+  rprog hash op = match op with
+                  | RRead k => bind (read hash k) (fun r => Ret (OBytes r))
+                  | RMeta k => bind (find hash k) (fun r => Ret (OMeta r))
+                  | RHash a d => bind (read_hash hash (sri_of hash a d)) (fun r => Ret (OBytes r))
+                  | RExists a d => bind (exists_hash (sri_of hash a d)) (fun r => Ret (OBool r))
+                  end /\
+  forall f, ranswer hash op f = match op with
+                                | RRead k => OBytes (fst (run (read hash k) f))
+                                | RMeta k => OMeta (fst (run (find hash k) f))
+                                | RHash a d => OBytes (fst (run (read_hash hash (sri_of hash a d)) f))
+                                | RExists a d => OBool (fst (run (exists_hash (sri_of hash a d)) f))
+                                end.
 Proof. split; [destruct op; reflexivity|intros f; destruct op; reflexivity]. Qed.
+
+(* the empty cache has no symbolic link; neither has any state the writers reach from a cache without one *)
+Theorem C07_nosym_empty : NoSymC [].
+Proof. intros p t H. discriminate. Qed.
 
 (* [serial] is the sequential execution of the library's programs: a writer's [write], a remover's [delete] *)
 Theorem C07_serial_is_sequential f0 x xs :
